@@ -14,5 +14,13 @@ func main() {
 		c13.GenEmbedded(os.Stdout)
 		return
 	}
+	if len(os.Args) > 1 && os.Args[1] == "dump-seeds" { // development aid
+		c13.DumpSeeds(os.Stdout)
+		return
+	}
+	if len(os.Args) > 1 && os.Args[1] == "bench-short" { // development aid
+		c13.BenchShort(os.Stdout)
+		return
+	}
 	engine.Main(c13.Prop{})
 }
